@@ -228,7 +228,18 @@ impl<'tcx> Cx<'tcx> {
             parts.push(format!("\"fn\":{}", self.callee_json(owner, *d, a)));
         }
         if let Const::Unevaluated(uv, _) = c {
-            parts.push(format!("\"def\":{}", js(&self.path(uv.def))));
+            if let Some(p) = uv.promoted {
+                parts.push(format!("\"promoted\":{}", p.as_usize()));
+            } else {
+                parts.push(format!("\"def\":{}", js(&self.path(uv.def))));
+            }
+        }
+        if let Const::Val(ConstValue::Scalar(rustc_middle::mir::interpret::Scalar::Ptr(ptr, _)), _) = c {
+            if let Some(rustc_middle::mir::interpret::GlobalAlloc::Static(sd)) =
+                tcx.try_get_global_alloc(ptr.provenance.alloc_id())
+            {
+                parts.push(format!("\"static\":{}", js(&self.path(sd))));
+            }
         }
         let tenv = TypingEnv::post_analysis(tcx, owner);
         if ty.is_integral() || ty.is_bool() || ty.is_char() {
